@@ -68,6 +68,8 @@ def scheduled(W):
             out.append((inner.func.name if isinstance(inner, Coroutine) else repr(inner), delay))
         elif isinstance(co, Coroutine):
             out.append((co.func.name, None))
+        elif isinstance(co, aio.Awaitable):
+            out.append((co.label, None))  # a callee taken by contract (stub_async)
         else:
             out.append((repr(co), None))
     return out
@@ -342,15 +344,20 @@ def close_contract(h):
     h.oblige("close schedules nothing", scheduled(W) == [])
 
 
-@oset("socket.open_socket", ["C15", "C07"], [F_OPEN, F_SCHED])
+@oset("socket.open_socket", ["C15", "C07", "C09"], [F_OPEN, F_SCHED])
 def open_contract(h):
     if not h.symbolic:
         return
     W = SockWorld(h)
     sock = W.make_socket(connected=False)
     was_open = h.branch(sock.attrs["is_open"])
+    # _connect by contract: if open_socket awaits it (instead of scheduling it) the call shows up here
+    stub_async(W, F_CONNECT, "_connect", [None])
     r = h.method(sock, "open_socket")
     h.oblige("open_socket lets no exception out", r.ok)
+    h.oblige("open_socket does not wait for the connection: the attempt runs as a background task, so the caller's own "
+             "time-out (init(): 5 s) is not spent inside open_socket",
+             And(len(calls(W, "_connect")) == 0, W.w.suspensions == 0))
     h.oblige("afterwards the socket is open", h.eq(sock.attrs["is_open"], True))
     h.oblige("opening a closed socket schedules exactly one immediate connect attempt; an open one nothing",
              scheduled(W) == ([] if was_open else [("_connect", None)]))
@@ -673,7 +680,7 @@ def notify_contract(h):
     h.cover("notify explored")
 
 
-@oset("socket.subscriptions", ["C12", "C13"], [A + "subscribe_on_connection_changed", A + "unsubscribe_on_connection_changed",
+@oset("socket.subscriptions", ["C12", "C13", "C15"], [A + "subscribe_on_connection_changed", A + "unsubscribe_on_connection_changed",
                                                A + "subscribe_on_message_received", A + "unsubcribe_on_message_received"])
 def subscriptions_contract(h):
     """The four registration methods touch exactly the set their notification walks (set semantics:
